@@ -51,6 +51,9 @@ var c14Callables = []c14Callable{
 	// (indices are part of saved cases: append only)
 	{"f1", "S"}, {"f2", "SI"}, {"f3", "SSS"}, {"fv", "SV"}, {"g2", "IS"}, {"jf", "SSI"}, {"obj.Join", "SS"}, {"pobj.PJoin", "SI"}, {"f2", "SI"}, {"f3", "SSS"},
 	{"fd", "SI"}, {"fd1", "S"},
+	// pf: a jet.Func that reads its arguments with ParseInto; lz: a jet.Func that hands back a Renderer which
+	// reads the arguments only when it is rendered (last stage only)
+	{"pf", "SI"}, {"lz", "SS"},
 }
 
 type c14Methods struct {
@@ -91,6 +94,24 @@ func c14Vars(log *[]string, jfName string) jet.VarMap {
 		return reflect.ValueOf(r.note("jf", args...))
 	})
 	vars.Set("rf", func(args ...interface{}) string { return r.note("jf", args...) })
+	vars.SetFunc("pf", func(a jet.Arguments) reflect.Value {
+		var s string
+		var n int
+		if err := a.ParseInto(&s, &n); err != nil {
+			a.Panicf("pf: %v", err)
+		}
+		return reflect.ValueOf(r.note("pf", s, n))
+	})
+	vars.SetFunc("lz", func(a jet.Arguments) reflect.Value {
+		return reflect.ValueOf(jet.RendererFunc(func(rt *jet.Runtime) {
+			var args []interface{}
+			for i := 0; i < a.NumOfArguments(); i++ {
+				args = append(args, a.Get(i).Interface())
+			}
+			r.note("lz", args...)
+			rt.Write([]byte("LZ"))
+		}))
+	})
 	vars.Set("obj", c14Methods{rec: r, Tag: "o"})
 	vars.Set("pobj", &c14Methods{rec: r, Tag: "p"})
 	vars["nilv"] = reflect.Value{}
@@ -170,6 +191,9 @@ func genC14(t *rapid.T) c14Case {
 	nested := rapid.IntRange(0, n).Draw(t, "nestedStages")
 	for i := 0; i < n; i++ {
 		fn := rapid.IntRange(0, len(c14Callables)-1).Draw(t, "fn")
+		if c14Callables[fn].name == "lz" && i != n-1 {
+			fn = 0 // what lz returns cannot be piped on
+		}
 		params := c14Callables[fn].params
 		var spos []int
 		for j, k := range params {
@@ -321,6 +345,11 @@ func (c c14Case) apply() (string, []string) {
 			cur = r.note("fd", args...)
 		case "fd1":
 			cur = r.note("fd1", args...)
+		case "pf":
+			cur = r.note("pf", args...)
+		case "lz":
+			r.note("lz", args...)
+			cur = "LZ"
 		case "obj.Join":
 			cur = m.Join(args[0].(string), args[1].(string))
 		case "pobj.PJoin":
